@@ -597,6 +597,16 @@ PROGS = [
     ("def x = 'g'; def f(x) do def g() x; g() end; f('param')", "'param'"),
     ("def n = 0; def d() do n += 1; n end; def f(a = d()) a; f(); f(); [f(), n]", "[3, 3]"),
     ("def x = 0; for i in [1, 2] do def y = i; x += y end; [x, y]", "[3, 2]"),
+    # every call gets fresh bindings: a default expression is evaluated at each call that needs it (never remembered)
+    ("def collect(x, acc = []) do append(acc, x); acc end; [collect(1), collect(2), collect(3, [0])]", "[[1], [2], [0, 3]]"),
+    ("def reg(k, m = <<<>>>) do m[k] = 1; m end; [reg('a'), reg('b')]", "[<<<'a' => 1>>>, <<<'b' => 1>>>]"),
+    ("def n = 0; def nxt() do n += 1; n end; def f(a = nxt()) a; [f(), f(), f(10), f()]", "[1, 2, 10, 3]"),
+    ("def f = fn(x, s = <<>>) do append(s, x); s end; [f(1), f(2)]", "[<<1>>, <<2>>]"),
+    # member lookup follows the prototype chain at every call: a call site remembers nothing about earlier receivers
+    ("def base = <*m = fn(self, x) 'base:' + x*>; def o = <*_proto_ = base*>; def r = []; for i in [1, 2] do append(r, o->m('x')); o->m = fn(self, x) 'own:' + x end; r", "['base:x', 'own:x']"),
+    ("def top = <*m = fn(self) 'top'*>; def mid = <*_proto_ = top*>; def o = <*_proto_ = mid*>; def call() o->m(); def r = [call()]; mid->m = fn(self) 'mid'; append(r, call()); r", "['top', 'mid']"),
+    ("def a = <*m = fn(self) 'a'*>; def b = <*m = fn(self) 'b'*>; def o = <*_proto_ = a*>; def r = []; for p in [a, b, a] do o->_proto_ = p; append(r, o->m()) end; r", "['a', 'b', 'a']"),
+    ("def a = <*m = fn(self) 'a'*>; def o = <*_proto_ = a*>; def r = []; for i in [1, 2] do append(r, o->m()); a->m = fn(self) 'a2' end; r", "['a', 'a2']"),
 ]
 
 
